@@ -84,6 +84,8 @@ type c16Tx struct {
 	Amt    uint64   `json:"amt"`
 }
 
+const c16ScriptKinds = 14
+
 func c16OutScript(kind int) []byte {
 	switch kind {
 	case 0:
@@ -100,6 +102,16 @@ func c16OutScript(kind int) []byte {
 		return c14Templates()["inscription"]
 	case 6:
 		return []byte{0x00, 0x6a, 0x4c, 0x00, 0xff}
+	case 7:
+		return fill(300, 0x99)
+	case 8, 9, 10, 11, 12:
+		// data scripts whose first push has 1..5 bytes and is followed by more script
+		n := kind - 7
+		sc := []byte{0x00, 0x6a, byte(n)}
+		sc = append(sc, fill(n, 0x61)...)
+		return append(sc, 0x0b, 0x68, 0x65, 0x6c, 0x6c, 0x6f, 0x20, 0x77, 0x6f, 0x72, 0x6c, 0x64)
+	case 13:
+		return []byte{0x6a, 0x03, 0x61, 0x62, 0x63, 0x51}
 	}
 	return fill(300, 0x99)
 }
@@ -107,7 +119,7 @@ func c16OutScript(kind int) []byte {
 func c16Build(c c16Tx) *bt.Tx {
 	ref := c.R.build()
 	for i := range ref.Outs {
-		ref.Outs[i].Script = c16OutScript((c.Script + i) % 8)
+		ref.Outs[i].Script = c16OutScript((c.Script + i) % c16ScriptKinds)
 		ref.Outs[i].Sats = c.Amt + uint64(i)
 	}
 	tx := toLib(ref)
@@ -139,6 +151,12 @@ func sameTx(a, b *bt.Tx) string {
 
 func c16TxCheck(c c16Tx) (fs []rep.Finding) {
 	tx := c16Build(c)
+	pristine := c16Build(c) // an independent copy: marshalling must not change the object being marshalled
+	defer func() {
+		if !bytes.Equal(tx.Bytes(), pristine.Bytes()) {
+			fs = append(fs, rep.F("marshal-mutates-transaction", fmt.Sprintf("the transaction changed while being marshalled: %x -> %x", pristine.Bytes(), tx.Bytes())))
+		}
+	}()
 	q := func(name string, fn func()) {
 		if f := rep.Guard(fn); f != nil {
 			f.Key = "panic|" + name + "|" + f.Key[len("panic|"):]
@@ -153,7 +171,7 @@ func c16TxCheck(c c16Tx) (fs []rep.Finding) {
 		var back bt.Tx
 		if err := json.Unmarshal(b, &back); err != nil {
 			fs = append(fs, rep.F("Tx.json|unmarshal-own", err.Error()))
-		} else if d := sameTx(tx, &back); d != "" {
+		} else if d := sameTx(pristine, &back); d != "" {
 			fs = append(fs, rep.F("Tx.json|roundtrip", d))
 		}
 	})
@@ -165,7 +183,7 @@ func c16TxCheck(c c16Tx) (fs []rep.Finding) {
 		back := bt.NewTx()
 		if err := json.Unmarshal(b, back.NodeJSON()); err != nil {
 			fs = append(fs, rep.F("Tx.node|unmarshal-own", err.Error()))
-		} else if d := sameTx(tx, back); d != "" {
+		} else if d := sameTx(pristine, back); d != "" {
 			fs = append(fs, rep.F("Tx.node|roundtrip", d))
 		}
 	})
@@ -295,7 +313,7 @@ func c16Boundary() []uint64 {
 
 func init() {
 	p := register(&Prop{ID: "C16", Level: "exploration",
-		Rule: "exhaustive: (amounts) every amount 0..2,000,000 (quick) / 0..100,000,000 (thorough) and ~8,300 decimal-boundary amounts up to 21e14 through Output and UTXO in both JSON dialects (marshal -> unmarshal -> equal satoshis/script/txid/vout); (transactions) product of shapes nIn 0..3 x nOut 0..3 x signing state {unsigned(nil scripts), first input only, all, empty scripts} x 8 output-script kinds (P2PKH, empty, data, undecodable, multisig, inscription, odd pushes, 300 bytes) x boundary amounts x version/locktime values, each marshalled as Tx (library and node dialect), Txs list (node), []*Tx, per-output Output (both), UTXOs list (node) and []*UTXO: marshal must return (value or error, no panic) and the unmarshalled object must have identical Bytes()/TxID/scripts/satoshis. distinct_nontrivial = distinct amounts + distinct transaction serialisations round-tripped",
+		Rule: "exhaustive: (amounts) every amount 0..2,000,000 (quick) / 0..100,000,000 (thorough) and ~8,300 decimal-boundary amounts up to 21e14 through Output and UTXO in both JSON dialects (marshal -> unmarshal -> equal satoshis/script/txid/vout); (transactions) product of shapes nIn 0..3 x nOut 0..3 x signing state {unsigned(nil scripts), first input only, all, empty scripts} x 14 output-script kinds (P2PKH, empty, data with pushes of 1..5 bytes, undecodable, multisig, inscription, odd pushes, 300 bytes) x boundary amounts x version/locktime values, each marshalled as Tx (library and node dialect), Txs list (node), []*Tx, per-output Output (both), UTXOs list (node) and []*UTXO: marshal must return (value or error, no panic) and the unmarshalled object must have identical Bytes()/TxID/scripts/satoshis. distinct_nontrivial = distinct amounts + distinct transaction serialisations round-tripped",
 	})
 	sA := NewSpace(p, "amounts", c16AmtCheck)
 	sT := NewSpace(p, "transactions", c16TxCheck)
@@ -322,7 +340,7 @@ func init() {
 		for nin := 0; nin <= 3; nin++ {
 			for nout := 0; nout <= 3; nout++ {
 				for signed := 0; signed < 4; signed++ {
-					for sk := 0; sk < 8; sk++ {
+					for sk := 0; sk < c16ScriptKinds; sk++ {
 						for ai, a := range amts {
 							for _, v := range []uint32{1, 0xffffffff} {
 								if nin == 0 && nout == 0 {
